@@ -1,6 +1,7 @@
 package rules
 
 import (
+	"go/types"
 	"go/constant"
 	"strings"
 
@@ -22,13 +23,50 @@ func runC13(c *Ctx) {
 	R.Trusted = []string{"go/types + go/ssa"}
 
 	// ---------- R1: format provenance
-	if ci := c.mustMethod("C13.R1", "wire", "Columns", "CopyIn"); ci != nil {
-		R.Analysed(fname(ci))
+	if outer := c.mustMethod("C13.R1", "wire", "Columns", "CopyIn"); outer != nil {
+		R.Analysed(fname(outer))
+		// the function that emits the CopyInResponse frame: Columns.CopyIn itself or a helper it calls
+		ci := outer
+		emits := func(fn *ssa.Function) bool {
+			for _, call := range core.Calls(fn) {
+				if writerMethod(call) == "Start" {
+					if k, ok := core.ConstInt(call.Common().Args[1]); ok && k == 'G' {
+						return true
+					}
+				}
+			}
+			return false
+		}
+		var via ssa.CallInstruction
+		if !emits(outer) {
+			for _, call := range core.Calls(outer) {
+				if h := core.StaticCallee(call); h != nil && c.P.InPkg(h, "wire") && h.Blocks != nil && emits(h) {
+					ci, via = h, call
+					R.Analysed(fname(h))
+				}
+			}
+		}
 		var format *ssa.Parameter
 		for _, p := range ci.Params {
 			if core.IsNamed(p.Type(), pkWire, "FormatCode") {
 				format = p
 			}
+		}
+		if via != nil {
+			// the helper receives Columns.CopyIn's own format parameter
+			var outerFormat *ssa.Parameter
+			for _, p := range outer.Params {
+				if core.IsNamed(p.Type(), pkWire, "FormatCode") {
+					outerFormat = p
+				}
+			}
+			passed := false
+			for i, p := range ci.Params {
+				if p == format && i < len(via.Common().Args) && outerFormat != nil && via.Common().Args[i] == ssa.Value(outerFormat) {
+					passed = true
+				}
+			}
+			R.Check(passed, "C13.R1", "(Columns).CopyIn:format-handed-to-emitter", c.at(via), "the function that emits CopyInResponse receives the format the handler requested", "argument is Columns.CopyIn's format parameter", "the emitting helper does not receive Columns.CopyIn's format parameter")
 		}
 		nB, nI := 0, 0
 		for _, call := range core.Calls(ci) {
@@ -39,6 +77,9 @@ func runC13(c *Ctx) {
 			case "AddInt16":
 				if _, isLen := core.IsLenOf(core.StripConv(call.Common().Args[1])); isLen {
 					continue
+				}
+				if bt, isB := core.StripConv(call.Common().Args[1]).Type().Underlying().(*types.Basic); isB && bt.Kind() == types.Int {
+					continue // the column count handed in as an int (count agreement is C02.R3's)
 				}
 				nI++
 				R.Check(format != nil && core.StripConv(call.Common().Args[1]) == ssa.Value(format), "C13.R1", "(Columns).CopyIn:column-format", c.at(call), "each per-column format code of CopyInResponse is the format the handler requested", "operand is the format parameter", "a per-column format code is not the CopyIn format parameter")
